@@ -98,6 +98,13 @@ func (p c07) Run(c *core.Ctx) {
 	cfg.WStop = 3
 	cfg.MaxNodes = 5
 	cfg.Fuel = r.Range(2, 6)
+	if c.Idx%4 == 0 {
+		// no script-side assignments at all: the host's writes are then the only changes between two
+		// node entries
+		cfg.NoSets = true
+		cfg.Probes = false
+		cfg.Cmds = false
+	}
 	prog := gen.Flow(r, cfg)
 	// the node that parks a runner on a never-completing command
 	id := 900000
@@ -185,7 +192,7 @@ func (p c07) Run(c *core.Ctx) {
 		}
 		// between two steps the host writes to the store it supplied (a new variable, or a same-type
 		// overwrite of its own variable): the next node entry must capture it
-		if (want.Kind == model.OLine || want.Kind == model.OOptions) && r.Chance(1, 5) {
+		if (want.Kind == model.OLine || want.Kind == model.OOptions) && r.Chance(1, 3) {
 			name := r.Pick("hostvar", "gold", "hôte")
 			cur, has := donor.M.Vars[name]
 			if !has || cur.T == hast.TNum {
